@@ -4,7 +4,7 @@
 out=$1; wt=$2; shift; shift
 for d in "$@"; do
   name=$(basename $d); pid=${name%%-*}
-  git -C $wt checkout -q -- . ; git -C $wt clean -fdq
+  git -C $wt reset -q --hard ; git -C $wt clean -fdq
   if git -C $wt apply --3way $d/patch.diff > /dev/null 2>&1 || git -C $wt apply $d/patch.diff > /dev/null 2>&1; then
     git -C $wt reset -q   # keep the change in the working tree only
     VERIF_REPO=$wt VERIF_RIDEALONG=0 VERIF_NO_EVIDENCE=1 VERIF_JOBS=${VERIF_JOBS:-4} ./vcheck $pid --tier quick > /tmp/seedregress_$name.log 2>&1; code=$?
@@ -13,4 +13,4 @@ for d in "$@"; do
     echo "$name apply-failed" >> $out
   fi
 done
-git -C $wt checkout -q -- . ; git -C $wt clean -fdq
+git -C $wt reset -q --hard ; git -C $wt clean -fdq
